@@ -9,8 +9,10 @@ package main
 // build (and with it every theorem that depends on the function) fails visibly.
 
 import (
+	"bytes"
 	"fmt"
 	"go/ast"
+	"go/printer"
 	"go/token"
 	"sort"
 	"strconv"
@@ -27,6 +29,7 @@ const (
 	RetHandler                // func(...) http.HandlerFunc { ...; return func(w, r) {...} }   -> W
 	RetWrites                 // func(w, r, ...) (http handler)  -> List Write (the responses written, in order)
 	RetResp                   // func(w, r, ...) (an HTTP handler) -> the response it writes (RetType)
+	RetHandled                // func(w, r, ...) (HTTP handler)  -> List Go.HCall (the response-writing / delegating calls on the path taken)
 )
 
 // OutParam: the Go callee writes through a pointer argument; its Lean twin returns the new value.
@@ -44,6 +47,7 @@ var outParams = map[string]OutParam{
 	"CopyRequestObjectToAuthRequest": {0, true},
 	"c.securecookie.Decode":          {2, false},
 	"ParseRequestObject":             {1, true},
+	"httphelper.HttpRequest":         {2, false},
 }
 
 type FuncSpec struct {
@@ -68,11 +72,41 @@ type FuncSpec struct {
 	// SoftErr: `v, err := f(..); if err != nil && !errors.As(err, &T{}) {..}` for a callee whose T-typed errors travel in its
 	// ok-value (see WrapBoth): T -> Lean projection that yields v from the callee's ok-value
 	SoftErr      map[string]string
-	WrapBothType string            // when set, WrapBoth only applies to `return v, T{..}` of exactly this error type
-	Writers      map[string]string // RetResp: response-writing call (Go callee text) -> Lean constructor of the response
-	DropArgs     []string          // argument expressions that carry no information for the model (w, r, loggers)
-	PlainUpdate  bool              // style: x.F = e  ->  let x := { x with F := e }  (without the type ascription of bindTarget)
-	LoopStyle    string            // "forFirst": early-exit range loops as Go.forFirst (β := result type); default Go.forRange
+	WrapBothType string               // when set, WrapBoth only applies to `return v, T{..}` of exactly this error type
+	Writers      map[string]string    // RetResp: response-writing call (Go callee text) -> Lean constructor of the response
+	DropArgs     []string             // argument expressions that carry no information for the model (w, r, loggers)
+	PlainUpdate  bool                 // style: x.F = e  ->  let x := { x with F := e }  (without the type ascription of bindTarget)
+	LoopStyle    string               // "forFirst": early-exit range loops as Go.forFirst (β := result type); default Go.forRange
+	TailCalls    []string             // RetErr: `return f(..)` with f in this list is a tail call (not an error constructor)
+	StructLits   map[string]StructLit // Go composite literal type ("pkg.T{}") -> Lean structure instance with the kept fields
+}
+
+// StructLit: `&pkg.T{K: V, ...}` becomes `({ K := V, ... } : Lean)`, restricted to the fields in Keep.
+type StructLit struct {
+	Lean string
+	Keep []string
+}
+
+// methods implemented by translated functions: recv.M(args) -> (F now recv args)
+var genMethodMap = map[string]string{"Relative": "Endpoint_Relative", "Absolute": "Endpoint_Absolute"}
+
+func goSrc(fset *token.FileSet, n ast.Node) string {
+	var b bytes.Buffer
+	printer.Fprint(&b, fset, n)
+	return strings.Join(strings.Fields(b.String()), " ")
+}
+
+// hcall renders a statement-level call of an HTTP handler body (RetHandled)
+func (t *tr) hcall(c *ast.CallExpr) string {
+	var errs []string
+	for _, a := range c.Args {
+		src := goSrc(t.fset, a)
+		_, renamed := t.spec.Rename[strings.SplitN(src, "(", 2)[0]+"()"]
+		if _, isCall := a.(*ast.CallExpr); isCall && (strings.Contains(src, "Err") || renamed) {
+			errs = append(errs, t.errValue(a))
+		}
+	}
+	return "(Go.hcall " + leanStr(goSrc(t.fset, c.Fun)) + " [" + strings.Join(errs, ", ") + "])"
 }
 
 type tr struct {
@@ -123,7 +157,7 @@ func ignorableCall(c *ast.CallExpr) bool {
 	case strings.HasSuffix(s, "Tracer.Start"), strings.HasSuffix(s, "tracer.Start"), s == "span.End", strings.HasPrefix(s, "logger."),
 		strings.HasSuffix(s, ".Debug"), strings.HasSuffix(s, ".Info"), strings.HasSuffix(s, ".Error") && strings.Contains(s, "ogger"),
 		s == "span.RecordError", s == "span.SetStatus",
-		strings.Contains(s, "Logger()."), s == "r.WithContext":
+		strings.Contains(s, "Logger()."), s == "r.WithContext", s == "logging.FromContext":
 		return true
 	}
 	return false
@@ -188,6 +222,7 @@ var pkgMap = map[string]string{
 	"time.Second": "Go.second", "time.Minute": "(60 * Go.second)", "time.Hour": "(3600 * Go.second)",
 	"slices.Contains": "Go.contains", "strings.HasPrefix": "Go.hasPrefix", "strings.HasSuffix": "Go.hasSuffix",
 	"strings.Contains": "Go.strContains", "strings.TrimSpace": "Go.trimSpace",
+	"strings.TrimSuffix": "Go.trimSuffix", "strings.TrimPrefix": "Go.trimPrefix",
 	"str.Contains": "Go.contains", "bytes.Equal": "Go.bytesEqual",
 	"oidc.FromTime": "Go.fromTime", "FromTime": "Go.fromTime",
 	"time.Time{}":    "Go.zeroTime",
@@ -414,7 +449,8 @@ func (t *tr) expr(e ast.Expr) string {
 			return "[" + strings.Join(vals, ", ") + "]"
 		}
 		_, mapped := typeMap[exprString(x.Type)]
-		if _, renamed := t.spec.Rename[exprString(x.Type)+"{}"]; !renamed && !mapped && len(x.Elts) > 0 {
+		_, keepList := t.spec.StructLits[exprString(x.Type)+"{}"]
+		if _, renamed := t.spec.Rename[exprString(x.Type)+"{}"]; !renamed && !mapped && !keepList && len(x.Elts) > 0 {
 			allIdent, allLit := true, true
 			for _, e := range x.Elts {
 				kv, ok := e.(*ast.KeyValueExpr)
@@ -453,6 +489,22 @@ func (t *tr) expr(e ast.Expr) string {
 			}
 		}
 		tn := exprString(x.Type) + "{}"
+		if sl, ok := t.spec.StructLits[tn]; ok {
+			var fs []string
+			for _, e := range x.Elts {
+				kv, ok := e.(*ast.KeyValueExpr)
+				if !ok {
+					return t.bad("positional struct literal "+tn, x)
+				}
+				k := exprString(kv.Key)
+				for _, keep := range sl.Keep {
+					if keep == k {
+						fs = append(fs, k+" := "+t.expr(kv.Value))
+					}
+				}
+			}
+			return "({ " + strings.Join(fs, ", ") + " } : " + sl.Lean + ")"
+		}
 		if len(x.Elts) == 0 {
 			if r, ok := pkgMap[tn]; ok {
 				return r
@@ -626,6 +678,12 @@ func (t *tr) call(c *ast.CallExpr) string {
 		}
 	case "fmt.Errorf", "errors.New", "errors.Join":
 		return t.errValue(c)
+	case "make":
+		if len(c.Args) >= 2 {
+			if _, ok := c.Args[0].(*ast.ArrayType); ok && exprString(c.Args[1]) == "<*ast.BasicLit>" && c.Args[1].(*ast.BasicLit).Value == "0" {
+				return "([] : List _)"
+			}
+		}
 	}
 	if r, ok := t.spec.Rename[full+"()"]; ok {
 		if a := t.args(c.Args); a != "" {
@@ -658,6 +716,12 @@ func (t *tr) call(c *ast.CallExpr) string {
 				return "(" + lf + " " + recv + ")"
 			}
 			return "(" + lf + " " + recv + " " + t.args(c.Args) + ")"
+		}
+		if gf, ok := genMethodMap[m]; ok {
+			if a := t.args(c.Args); a != "" {
+				return "(" + gf + " now " + recv + " " + a + ")"
+			}
+			return "(" + gf + " now " + recv + ")"
 		}
 		// getter or method of a model structure:  recv.M args
 		if len(c.Args) == 0 {
@@ -718,6 +782,10 @@ func (t *tr) errValue(e ast.Expr) string {
 				return leanStr("error:" + s)
 			}
 			return leanStr("error:<dynamic message>") // errors.New(a + b): the text carries no decision
+		case "errors.Join":
+			if len(x.Args) >= 1 {
+				return t.errValue(x.Args[0]) // the first joined error is the sentinel
+			}
 		}
 		// oidc.ErrInvalidRequest().WithDescription(...)  ->  "ErrInvalidRequest"
 		cur := ast.Expr(x)
@@ -891,6 +959,13 @@ func (t *tr) ret0(r *ast.ReturnStmt) string {
 				return t.expr(c)
 			}
 		}
+		if c, ok := r.Results[0].(*ast.CallExpr); ok {
+			for _, tc := range t.spec.TailCalls {
+				if exprString(c.Fun) == tc {
+					return t.expr(c)
+				}
+			}
+		}
 		return "(.error " + t.errValue(r.Results[0]) + ")"
 	case RetValErr:
 		if len(r.Results) == 1 {
@@ -956,6 +1031,10 @@ func (t *tr) ret0(r *ast.ReturnStmt) string {
 			return t.bad("return arity", r)
 		}
 		return t.expr(r.Results[0])
+	case RetHandled:
+		if len(r.Results) == 0 {
+			return "[]"
+		}
 	}
 	return t.bad("return", r)
 }
@@ -1045,6 +1124,9 @@ func memo(f func() string) cont {
 
 func (t *tr) block(stmts []ast.Stmt, k cont) string {
 	if len(stmts) == 0 {
+		if k == nil && t.spec.Ret == RetHandled {
+			return "[]" // end of a handler body
+		}
 		if k == nil {
 			if t.spec.Ret == RetVal && t.spec.RetParam != "" {
 				return t.spec.RetParam // void function: its effect is the final value of the pointer parameter
@@ -1139,6 +1221,9 @@ func (t *tr) block(stmts []ast.Stmt, k cont) string {
 					v := t.ident(id.Name)
 					return "let " + v + " := (" + v + ")." + sel.Sel.Name + " " + t.args(c.Args) + ";\n" + t.pad() + rest()
 				}
+			}
+			if t.spec.Ret == RetHandled {
+				return "(" + t.hcall(c) + " :: " + rest() + ")"
 			}
 		}
 		return t.bad("expression statement", x)
@@ -1399,6 +1484,31 @@ func (t *tr) block(stmts []ast.Stmt, k cont) string {
 						"(if " + okv + " then\n" + t.pad() + "  " + thenB + "\n" + t.pad() + "else\n" + t.pad() + elseB + ")"
 				}
 			}
+			if ok && len(as.Lhs) == 2 && len(as.Rhs) == 1 {
+				// if v, ok := e.(T); cond {..}   ->   the assertion as a statement, then the plain if
+				if ta, isTA := as.Rhs[0].(*ast.TypeAssertExpr); isTA && ta.Type != nil {
+					y := *x
+					y.Init = nil
+					return t.block(append([]ast.Stmt{as, &y}, stmts[1:]...), k)
+				}
+				// if logger, ok := logging.FromContext(ctx); ok { logger.Debug(..) }   ->   nothing
+				if c, isCall := as.Rhs[0].(*ast.CallExpr); isCall && ignorableCall(c) && x.Else == nil {
+					onlyLogging := true
+					for _, st := range x.Body.List {
+						es, isES := st.(*ast.ExprStmt)
+						if !isES {
+							onlyLogging = false
+							break
+						}
+						if bc, isC := es.X.(*ast.CallExpr); !isC || !ignorableCall(bc) {
+							onlyLogging = false
+						}
+					}
+					if onlyLogging {
+						return rest()
+					}
+				}
+			}
 			return t.bad("if with init", x)
 		}
 		if eb, isBlock := x.Else.(*ast.BlockStmt); endsWithErrAssign(x.Body) || (isBlock && endsWithErrAssign(eb)) {
@@ -1429,6 +1539,12 @@ func (t *tr) block(stmts []ast.Stmt, k cont) string {
 		t.indent--
 		return "(if " + t.expr(x.Cond) + " then\n" + t.pad() + "  " + thenB + "\n" + t.pad() + "else\n" + t.pad() + elseB + ")"
 	case *ast.SwitchStmt:
+		if as, ok := x.Init.(*ast.AssignStmt); ok && len(as.Lhs) == 1 && len(as.Rhs) == 1 {
+			// switch v := e; v {..}   ->   the assignment as a statement, then the plain switch
+			y := *x
+			y.Init = nil
+			return t.block(append([]ast.Stmt{as, &y}, stmts[1:]...), k)
+		}
 		return t.switchStmt(x, rest)
 	case *ast.RangeStmt:
 		// for _, v := range L { if COND(v) { return V } }   ->   if L.any (fun v => COND) then V else rest
@@ -1593,6 +1709,8 @@ func translateFunc(fset *token.FileSet, fd *ast.FuncDecl, spec *FuncSpec) (strin
 		rt = "Go.R " + spec.RetType
 	case RetVoid, RetHandler:
 		rt = ""
+	case RetHandled:
+		rt = "List Go.HCall"
 	default:
 		rt = spec.RetType
 	}
